@@ -15,7 +15,8 @@ struct Table<F> {
     q: Vec<Vec<F>>,
     script: Vec<usize>,
     pos: usize,
-    dim: usize,
+    /// number of coordinates of every abstract state (states of different lengths: dimension-changing moves)
+    dims: Vec<usize>,
 }
 
 trait Scalar: num_traits::Float + std::fmt::Debug + Send + 'static {
@@ -104,7 +105,7 @@ impl<S: StateElem, F: Scalar> Proposal<S, F> for Table<F> {
     fn sample(&mut self, _current: &[S]) -> Vec<S> {
         let k = self.script[self.pos % self.script.len()];
         self.pos += 1;
-        state::<S>(k, self.dim)
+        state::<S>(k, self.dims[k])
     }
     fn logp(&self, from: &[S], to: &[S]) -> F {
         self.q[from[0].dec()][to[0].dec()]
@@ -148,7 +149,13 @@ where
             }
         }
     }
+    // a third of the cases: the abstract states have different numbers of coordinates (trans-dimensional moves)
+    let dims: Vec<usize> = if rng.below(3) == 0 { (0..n_states).map(|_| rng.range(1, 4) as usize).collect() } else { vec![dim; n_states] };
     let steps = rng.range(1, 4) as usize;
+    // between two steps the caller may move the chain through its public fields: overwrite `current_state` (30 %),
+    // give the target other log-densities (20 %)
+    let poke_state: Vec<Option<usize>> = (0..steps).map(|_| if rng.coin(0.3) { Some(rng.below(n_states as u64) as usize) } else { None }).collect();
+    let poke_target: Vec<Option<Vec<F>>> = (0..steps).map(|_| if rng.coin(0.2) { Some((0..n_states).map(|_| palette::<F>(rng, special_rate)).collect()) } else { None }).collect();
     let script: Vec<usize> = (0..steps).map(|_| rng.below(n_states as u64) as usize).collect();
     let start = rng.below(n_states as u64) as usize;
     // per step: how to choose u
@@ -158,9 +165,24 @@ where
         return;
     }
     guard_case(out, &id.clone(), "C01:panic", steps as u64, |out| {
-        let table = Table { lp: lp.clone(), q: q.clone(), script: script.clone(), pos: 0, dim };
-        let mut chain: MHMarkovChain<S, F, Table<F>, Table<F>> = MHMarkovChain::new(table.clone(), table.clone(), state::<S>(start, dim));
+        let table = Table { lp: lp.clone(), q: q.clone(), script: script.clone(), pos: 0, dims: dims.clone() };
+        let mut chain: MHMarkovChain<S, F, Table<F>, Table<F>> = MHMarkovChain::new(table.clone(), table.clone(), state::<S>(start, dims[start]));
+        let mut lp = lp.clone();
+        if dims.iter().any(|d| *d != dims[0]) {
+            out.count("states_of_different_dimension");
+        }
         for t in 0..steps {
+            if t > 0 {
+                if let Some(k) = poke_state[t] {
+                    chain.current_state = state::<S>(k, dims[k]);
+                    out.count("current_state_overwritten_between_steps");
+                }
+                if let Some(new_lp) = &poke_target[t] {
+                    lp = new_lp.clone();
+                    chain.target.lp = new_lp.clone();
+                    out.count("target_changed_between_steps");
+                }
+            }
             let cur_vec = chain.current_state.clone();
             let cur = cur_vec[0].dec();
             // candidate: usually different from the current state
@@ -196,7 +218,7 @@ where
             let u: F = F::from64(k as f64 / (1u64 << F::BITS) as f64);
             let new = chain.step().clone();
             let cid = format!("{id}.{t}");
-            let y_vec = state::<S>(prop, dim);
+            let y_vec = state::<S>(prop, dims[prop]);
             let is_x = new.len() == cur_vec.len() && new.iter().zip(cur_vec.iter()).all(|(a, b)| S::same_bits(a, b));
             let is_y = new.len() == y_vec.len() && new.iter().zip(y_vec.iter()).all(|(a, b)| S::same_bits(a, b));
             out.count("predicate_evaluations");
